@@ -334,11 +334,20 @@ class Prop:
         pass
 
 
+_WORKER_HISTORY = []     # the cases this process ran before (a failure may need state an earlier call left behind)
+
+
 def _worker(args):
     prop, case = args
     try:
         obs = prop.run_impl(case)
         fails = prop.oracle(case, obs)
+        if fails and _WORKER_HISTORY:
+            for f in fails:
+                if isinstance(f, dict):
+                    f.setdefault("_history", list(_WORKER_HISTORY[-40:]))
+        _WORKER_HISTORY.append(case)
+        del _WORKER_HISTORY[:-40]
         return (obs, fails, None)
     except Exception as e:  # harness problem, not a verdict
         return (None, [], "harness exception: " + "".join(traceback.format_exception_only(type(e), e)).strip()
@@ -678,11 +687,22 @@ def run_replay(prop, path):
         print("  proofs now:", "ok" if T["ok"] else T["problems"])
         return 1
     case = j["case"]
+    history = (j.get("failure") or {}).get("_history") or []
     prop.setup("quick", random.Random(0))
     try:
+        del _WORKER_HISTORY[:]
         obs, fails, herr = _worker((prop, case))
+        if not fails and not herr and history:
+            # the failure needed what earlier calls in the same process left behind: replay them first, in order
+            print("replay: holds on the input alone; replaying the %d cases the failing process ran before it" % len(history))
+            for h in history:
+                _worker((prop, h))
+            obs, fails, herr = _worker((prop, case))
     finally:
         prop.teardown()
+    for f in fails or []:
+        if isinstance(f, dict):
+            f.pop("_history", None)
     if herr:
         print("replay: harness error:", herr)
         return 2
